@@ -169,3 +169,84 @@ attack.globs = dict(G, Iterable="Iterable")
 
 from pyvc.bounded import bounded_check
 rint.extra_checks = [bounded_check("bounded.c19", "generators-symrun", ["C19"])]
+
+
+# ---------------------------------------------------------------------------
+# modulo_counter: the running sum of start and all earlier steps reduced into [0, modulo), identically for
+# numbers and streams and whichever fast path is taken.
+#   "reduced into [0, M)":  result == running_sum - J*M for an INTEGER J, and 0 <= result < M.
+#   ghost SS = sum of the steps consumed so far;  ghost J = integer witness (number of moduli subtracted so far);
+#   FDIV(t, M) is the engine's name for the integer floor quotient of Python's real %  (t % M == t - M*FDIV(t, M)).
+_MC_ENV = {
+    "MOD0": SpecLambda("lambda: ite(is_iterator(modulo), M0, modulo)"),
+    "STARTK": SpecLambda("lambda j: ite(is_iterator(start), start[j], start)"),
+    "STEPK": SpecLambda("lambda j: ite(is_iterator(step), step[j], step)"),
+    # the two reductions `t % m % m` subtract Q2(t) moduli
+    "Q2": SpecLambda("lambda t: FDIV(t, MOD0()) + FDIV(t - MOD0() * FDIV(t, MOD0()), MOD0())"),
+}
+_mc_plain = Yield(
+    ghost_before=["J = J + Q2(STARTK(k) + SS - J * MOD0())"],
+    post=[("S:running-sum-of-start-and-all-earlier-steps-minus-an-integer-number-of-moduli", "result == STARTK(k) + SS - J * MOD0()"),
+          ("S:reduced-into-[0,modulo)", "0 <= result and result < MOD0()")],
+    ghost_after=["SS = SS + STEPK(k)"])
+# batched fast path: c is only reduced every `steps` samples; the output subtracts JW moduli, J itself changes at the re-base
+_mc_batched = Yield(
+    ghost_before=["JW = J + Q2(STARTK(k) + SS - J * MOD0())"],
+    post=[("S:running-sum-of-start-and-all-earlier-steps-minus-an-integer-number-of-moduli", "result == STARTK(k) + SS - JW * MOD0()"),
+          ("S:reduced-into-[0,modulo)", "0 <= result and result < MOD0()")],
+    ghost_after=["SS = SS + STEPK(k)", "J = ite(n + 1 == steps, J + Q2(BASEK(k) + SS - J * MOD0()), J)"])
+_mc_zero_step = Yield(
+    ghost_before=["JW = Q2(STARTK(k))"],
+    post=[("S:running-sum-of-start-and-all-earlier-steps-minus-an-integer-number-of-moduli", "result == STARTK(k) + SS - JW * MOD0() and SS == 0"),
+          ("S:reduced-into-[0,modulo)", "0 <= result and result < MOD0()")],
+    ghost_after=["SS = SS + STEPK(k)"])
+_MC_ENV["BASEK"] = SpecLambda("lambda j: ite(is_iterator(start), start[j], start)")
+
+
+def _mc_mode(ks, km, kst):
+    params = dict(start=Iter(Real) if ks else Real, modulo=Iter(Real) if km else Real, step=Iter(Real) if kst else Real)
+    req = []
+    if km:
+        params["M0"] = Real
+        req += ["M0 > 0", "forall(lambda i: modulo[i] == M0)"]
+    else:
+        req += ["modulo > 0"]
+    ens = [("S:endless-when-no-argument-is-a-stream", "False")] if not (ks or km or kst) else \
+          [("S:ends-with-the-shortest-stream-argument", " or ".join("(finite(%s) and nout == length(%s))" % (n, n) for n, kk in (("start", ks), ("modulo", km), ("step", kst)) if kk))]
+    return Mode(params=params, requires=req, ensures=ens, note="a stream modulo is constant valued (a constant stream behaves like the number)")
+
+
+_cs = lambda src: [("C:count", "nout == pos(%s)" % src)]
+_mc_loops = {
+    # start is a stream: c - lastp tracks SS minus J moduli
+    1: Loop(inv=_cs("start") + [("C:congruence", "c - lastp == SS - J * MOD0() and pos(modulo) == nout and pos(step) == nout")]),
+    2: Loop(inv=_cs("start") + [("C:congruence", "c - lastp == SS - J * MOD0() and pos(step) == nout")]),
+    3: Loop(inv=_cs("start") + [("C:congruence", "c - lastp == SS - J * MOD0() and pos(modulo) == nout")]),
+    4: Loop(inv=_cs("start") + [("C:zero-step", "SS == 0 and step == 0")]),
+    5: Loop(inv=_cs("start") + [("C:batched-congruence", "c + n * step - lastp == SS - J * MOD0() and 0 <= n and n < steps and steps > 1")]),
+    6: Loop(inv=_cs("start") + [("C:congruence", "c - lastp == SS - J * MOD0()")]),
+    # start is a number: c tracks start + SS minus J moduli
+    7: Loop(inv=[("C:count", "nout == pos(modulo) and nout == pos(step)"), ("C:congruence", "c == start + SS - J * MOD0()")]),
+    8: Loop(inv=[("C:count", "nout == pos(step)"), ("C:congruence", "c == start + SS - J * MOD0()")]),
+    9: Loop(inv=[("C:count", "nout == pos(modulo)"), ("C:congruence", "c == start + SS - J * MOD0()")]),
+    10: Loop(inv=[("C:constant", "c == start - Q2(start) * MOD0() and SS == 0 and step == 0")]),
+    11: Loop(inv=[("C:batched-congruence", "c + n * step == start + SS - J * MOD0() and 0 <= n and n < steps and steps > 1")]),
+    12: Loop(inv=[("C:congruence", "c == start + SS - J * MOD0()")]),
+}
+_mc_yields = {1: _mc_plain, 2: _mc_plain, 3: _mc_plain, 4: _mc_zero_step, 5: _mc_batched, 6: _mc_plain, 7: _mc_plain, 8: _mc_plain, 9: _mc_plain,
+              10: _mc_zero_step, 11: _mc_batched, 12: _mc_plain}
+modulo_counter = Contract(
+    name="modulo_counter", qual="audiolazy/lazy_synth.py::modulo_counter", kind="generator", props=["C19"],
+    modes={"start=%s,modulo=%s,step=%s" % tuple("stream" if v else "number" for v in (a, b, c_)): _mc_mode(a, b, c_)
+           for a in (0, 1) for b in (0, 1) for c_ in (0, 1)},
+    ghost_init=["SS = 0", "J = 0", "JW = 0"], spec_env=_MC_ENV, loops=_mc_loops, yields=_mc_yields,
+    globs=dict(G, Iterable="Iterable", xzip=lib.xzip), default_elem=Real, replay="oracles.bounded_adapter:c19",
+    stated=["modulo_counter yields the running sum of start and all earlier steps reduced into [0,modulo) (= minus an integer number J of moduli, ghost witness), identically whether "
+            "its arguments are numbers or streams and whichever internal fast path is taken (8 argument-kind modes; the batched fast paths prove the same clause)"])
+modulo_counter.isinstance_hook = lib.std_isinstance
+modulo_counter.assumptions = ["real % is modelled by an integer floor quotient FDIV with 0 <= t - M*FDIV(t,M) < M (M > 0); negative moduli are not covered by the proof (bounded stand-in only)",
+                              "a stream-valued modulo is constant valued"]
+
+
+from pyvc.bounded import bounded_check
+rint.extra_checks = [bounded_check("bounded.c19", "generators-symrun", ["C19"])]
